@@ -22,6 +22,10 @@ def _alarm(signum, frame):
 
 
 OP_BUDGET_S = float(os.environ.get("VERIF_OP_BUDGET_S", "5"))
+RETRY_SCALE = float(os.environ.get("VERIF_RETRY_SCALE", "8"))
+
+
+_budget_scale = [1.0]
 
 
 def guarded(func, *args):
@@ -31,7 +35,7 @@ def guarded(func, *args):
     if signal.getitimer(signal.ITIMER_REAL)[0] > 0:
         return func(*args)
     old = signal.signal(signal.SIGALRM, _alarm)
-    signal.setitimer(signal.ITIMER_REAL, OP_BUDGET_S)
+    signal.setitimer(signal.ITIMER_REAL, OP_BUDGET_S * _budget_scale[0])
     try:
         return func(*args)
     finally:
@@ -144,6 +148,9 @@ def run_ops(ops, seed, tier, boost=1, result=None, max_cases=None, deadline=None
     batch = []   # (op, args, impl_out)
     for op in ops:
         sub = random.Random(rng.getrandbits(64))
+        sib = random.Random(sub.getrandbits(64))
+        sibling = getattr(op, "sibling", None)
+        rate = getattr(op, "sibling_rate", 0.2)
         count = 0
         for a in op.gen(sub, tier, boost):
             if max_cases is not None and count >= max_cases:
@@ -155,16 +162,50 @@ def run_ops(ops, seed, tier, boost=1, result=None, max_cases=None, deadline=None
             out = run_one(op, a, res)
             if op.model:
                 batch.append((op, a, out))
+            if sibling is not None and sib.random() < rate:
+                # History sensitivity: the implementation is one long-lived process, the model is a pure
+                # function.  Directly after a case, run the SAME question with only its context respelled
+                # (the same instant in another offset / representation, the same text under another calendar
+                # mode or parser configuration): a memo table keyed on too little then answers from the
+                # earlier case, and the correspondence and the oracle see it.
+                try:
+                    sibs = list(sibling(a, sib) or [])
+                except Exception:   # a sibling that cannot be built is simply not run
+                    sibs = []
+                for b in sibs:
+                    count += 1
+                    res.hist["sibling-cases"] += 1
+                    out = run_one(op, b, res)
+                    if op.model:
+                        batch.append((op, b, out))
     compare(batch, res)
     set_mode("greg")
     return res
 
 
-def run_one(op, a, res):
+def _run_impl(op, a):
     try:
-        out = guarded(op.impl, a)
+        return guarded(op.impl, a), None
     except Exception as exc:  # noqa
-        out = canon_exc(exc)
+        return canon_exc(exc), exc
+
+
+def run_one(op, a, res):
+    out, exc = _run_impl(op, a)
+    if isinstance(out, str) and "Timeout" in out:
+        # A case that ran out of its budget is run once more with a budget RETRY_SCALE times larger, so
+        # that a slow or loaded machine cannot turn a merely expensive case into a verdict; what still
+        # does not finish then is what the ops report as a hang.
+        scale = getattr(op, "retry_scale", RETRY_SCALE)
+        _budget_scale[0] = scale
+        try:
+            out, exc = _run_impl(op, a)
+        finally:
+            _budget_scale[0] = 1.0
+        res.hist["slow-case-retried"] += 1
+        if len(res.notes) < 10:
+            res.notes.append("slow case re-run with %gx budget: %s -> %s" % (scale, op.line(a)[:160], out[:60]))
+    if exc is not None:
         res.errors[out] += 1
     res.evaluations += 1
     lab = op.label(a)
@@ -194,7 +235,10 @@ def compare(batch, res):
         if canon is not None:
             # the model answers exactly (e.g. rationals); the op maps that to the canonical form
             # in which the implementation's (float) answer was recorded
-            model_out = canon(a, model_out)
+            try:
+                model_out = canon(a, model_out)
+            except Exception as exc:  # noqa  (canonicalisation may re-run the implementation)
+                model_out = "CANON-" + canon_exc(exc)
         if impl_out != model_out:
             res.disagreements.append((op, a, impl_out, model_out))
 
